@@ -174,6 +174,25 @@ EXTRA5 = {
     "C20": ("R-GUARD end-of-range tests of a text quotation evaluated for every item; R-SIB every emitting content arm of DiffAssembler::process honours start state and end test", "Also decides the boundary handling of Text and XmlText quotations for every kind of element (one genuine defect fixed)."),
 }
 
+EXTRA6 = {
+    "C01": ("pending-merge clauses in the export mechanism; identity, weak-wire and update-events mechanisms", "Also decides stash forwarding, branch identity, weak-link boundary bits and the emission condition under this property."),
+    "C02": ("R-GUARD each stash is forwarded under its own presence test alone; R-SCAN BlockSet::exclude examines every known range (natural-loop exit edges, sorted-key exit accepted)", "Also decides the independence of the two stash kinds in full-state exports and the completeness of the de-duplication in front of integration."),
+    "C03": ("R-PAIR must-pass-through: a formatting mark deleted by insert_format is accounted for in the negated attributes on every path", "Also decides the bookkeeping of replaced formatting marks."),
+    "C04": ("R-TABLE flag writers set_X / clear_X touch the bit of their own name", "Also decides the flag writers."),
+    "C05": ("update-events mechanism (emission condition of the v1/v2 update events by truth table)", "Also decides that delete-only transactions are published."),
+    "C06": ("BlockSet::exclude completeness; per-gap state of the formatting clean-ups; unit of the v2 string column", "Also decides the completeness of de-duplication before integration."),
+    "C07": ("R-PROV the update event writes TransactionMut.delete_set itself, once, and nothing derived from it", "Also decides that the event's delete set is the transaction's own."),
+    "C08": ("state-vector mechanism (BlockSet::exclude completeness)", "Also decides the de-duplication step diff_updates / one-by-one application rely on."),
+    "C09": ("R-TABLE weak-link boundary kind <-> info bits over 72 semantic states (writer) and by truth table (reader); unit of the v2 string column; branch identity in the parent info", "Also decides the meaning-level agreement of the weak-link info byte, which the grammar comparison cannot see."),
+    "C11": ("R-PROV the collections a formatting clean-up decides against are created for its own gap (liveness mechanism)", "Also decides that clean-up state does not survive from one gap to the next."),
+    "C13": ("block-wire mechanism incl. the unit of the v2 string column", "Also decides the string-column unit under this property."),
+    "C14": ("R-GUARD branch identity: Branch.name is read only where Branch.item is None (4 of 4)", "Also decides the root/nested decision of from_type."),
+    "C15": ("liveness mechanism (tombstoned marks never take part in attribute decisions)", "Also decides mark liveness in the clean-ups, where GC-on and GC-off replicas would otherwise differ."),
+    "C18": ("R-PROV local side of the awareness register: outgoing entries, selection, clock bump decided by the map look-up alone", "Also decides the local writes and the outgoing update of the awareness register."),
+    "C19": ("R-GUARD signed C values become unsigned Rust values exactly under x >= 0 (value numbering, 3 of 3)", "Also decides the domain guard of signed option fields."),
+    "C20": ("identity and weak-wire mechanisms", "Also decides branch identity and the weak-link boundary bits under this property."),
+}
+
 PENDING = {
 }
 
@@ -182,7 +201,7 @@ def main():
     checks = []
     for pid in sorted(CHECKS):
         tech, text, ref = CHECKS[pid]
-        for ex in (EXTRA, EXTRA2, EXTRA3, EXTRA4, EXTRA5):
+        for ex in (EXTRA, EXTRA2, EXTRA3, EXTRA4, EXTRA5, EXTRA6):
             if pid in ex:
                 tech = tech + "; " + ex[pid][0]
                 text = text + " " + ex[pid][1]
